@@ -226,6 +226,30 @@ def rule_r1(chk, db, model, plist, router, impls):
     chk.floor("R1", len(ops), 96, "model operations compared with the router")
 
 
+def rule_r1c(chk, db, model, plist, router):
+    """converse: the router returns X only on paths that assert every URI literal of X (query tag, k=v patterns).
+    (Required *members* may instead be enforced by the deserialiser - C02.R1 - so only URI literals are demanded here.)"""
+    ops = {o.name: o for o in model.operations()}
+    n = 0
+    for p in plist:
+        if not p.leaf or p.leaf[0] != "Ok":
+            continue
+        op = ops.get(p.leaf[1])
+        if op is None:
+            continue
+        pos = {a for a, v in p.conds if v is True}
+        cell = dict((a[0], v) for a, v in p.conds if a[0] in ("method", "path"))
+        need = {("has", t) for t in op.query_tags} | {("pat", k, v) for k, v in op.query_patterns}
+        missing = sorted(need - pos)
+        n += 1
+        key = "%s@%s" % (op.name, "+".join(sorted("=".join(a[1:]) for a in pos)) or "-")
+        ok = not missing and cell.get("method") == op.method and cell.get("path") == op.path_kind
+        chk.verdict(ok, "R1c", key, router.loc(p.leaf[-1]),
+                    "the router returns %s on a path that does not require %s (cell %s/%s): a request that denotes no operation reaches the backend" %
+                    (op.name, [" ".join(a) for a in missing], cell.get("method"), cell.get("path")))
+    chk.floor("R1c", n, 96, "Ok paths of the router")
+
+
 def rule_r1_flags(chk, db, model, plist, router):
     """needs_full_body flag per operation is a function of the operation (same on every path)."""
     flags = {}
@@ -420,6 +444,8 @@ def run(chk, db, tier):
     chk.stats["router_blocks"] = len(router.blocks)
     chk.guard("R1", rule_r1, db, model, plist, router, impls)
     chk.guard("R1b", rule_r1_flags, db, model, plist, router)
+    chk.rule("R1c", "converse: every Ok path of the router asserts the URI literals (query tag / k=v pattern) and the method/path cell of the operation it returns")
+    chk.guard("R1c", rule_r1c, db, model, plist, router)
     chk.guard("R2", rule_r2, plist, router)
     chk.guard("R3", rule_r3, db, model, impls)
     chk.guard("R4", rule_r4, db, model, router)
